@@ -437,3 +437,39 @@ Proof.
   vm_compute in E. injection E as <-.
   split; [apply veqb_sound; [exact Hwf | vm_compute; reflexivity] | vm_compute; reflexivity].
 Qed.
+
+(* ---- tie to the CURRENT sources of the Maps string forms (files.go: Maps.JsonString, JsonStringIndent, XmlString,
+   XmlStringIndent): go2v re-translates them on every run (Gen/Pure_gen.v) and GenProofs/PureG12.v proves the translated
+   loops equal to the model [maps_concat] the theorems above are stated with, for ANY per-Map encoder that does not
+   panic (the encoders themselves are tied by the correspondence run). *)
+From Mxj Require Import Gen.Setters_gen Gen.PureSupport Gen.Pure_gen GenProofs.PureG12.
+
+Theorem C16_maps_json_string_code_is_model : forall (Json : entries -> list bool -> res str) st mvs safe,
+  Forall (fun m => no_panic (Json m safe)) mvs ->
+  fn_JsonString Json st mvs safe = Ret (maps_concat [] true (map (fun m => Json m safe) mvs) []).
+Proof. exact maps_json_string_code_is_model. Qed.
+Print Assumptions C16_maps_json_string_code_is_model.
+
+Theorem C16_maps_json_string_indent_code_is_model : forall (JsonIndent : entries -> str -> str -> list bool -> res str) st mvs p i safe,
+  Forall (fun m => no_panic (JsonIndent m p i safe)) mvs ->
+  fn_JsonStringIndent JsonIndent st mvs p i safe = Ret (maps_concat [nl] true (map (fun m => JsonIndent m p i safe) mvs) []).
+Proof. exact maps_json_string_indent_code_is_model. Qed.
+Print Assumptions C16_maps_json_string_indent_code_is_model.
+
+Theorem C16_maps_xml_string_code_is_model : forall (Xml : entries -> list str -> res str) st mvs,
+  Forall (fun m => no_panic (Xml m [])) mvs ->
+  fn_XmlString Xml st mvs = Ret (maps_xml_string (map (fun m => Xml m []) mvs)).
+Proof. exact maps_xml_string_code_is_model. Qed.
+Print Assumptions C16_maps_xml_string_code_is_model.
+
+Theorem C16_maps_xml_string_indent_code_is_model : forall (XmlIndent : entries -> str -> str -> list str -> res str) st mvs p i,
+  Forall (fun m => no_panic (XmlIndent m p i [])) mvs ->
+  fn_XmlStringIndent XmlIndent st mvs p i = Ret (maps_xml_string (map (fun m => XmlIndent m p i []) mvs)).
+Proof. exact maps_xml_string_indent_code_is_model. Qed.
+Print Assumptions C16_maps_xml_string_indent_code_is_model.
+
+Example C16_maps_code_nonvacuous :
+  fn_JsonStringIndent (fun m _ _ _ => match m with [] => Ok (s "{}") | [_] => Ok (s "{1}") | _ => Err EOther end) gstate0
+    [[]; [(s "a", VNil)]; []; [(s "a", VNil); (s "b", VNil)]; []] [] (s " ") [] =
+    Ret (s "{}" ++ [nl] ++ s "{1}" ++ [nl] ++ s "{}", Some EOther).
+Proof. vm_compute. reflexivity. Qed.
